@@ -92,6 +92,10 @@ def run(ctx):
                 F = gen_F(rng, n, rng.uniform(0.2, 0.9), shape, 1e-3 * (1 + 1e-9))
                 for sv in ([0] * n, [1] * n, [rng.randint(0, 1) for _ in range(n)]):
                     cases.append({"fn": "completion", "coefs": [hexf(x) for x in F], "coef_type": "F", "seed": sv, "shape": shape, "timeout": 120})
+                # the same 0/1 vector held in another container (tuple, bool / unsigned / signed / float ndarray): a seed is a seed
+                if rep % 2 == 0:
+                    cases.append({"fn": "completion", "coefs": [hexf(x) for x in F], "coef_type": "F", "seed": [rng.randint(0, 1) for _ in range(n - 1)] + [1],
+                                  "seed_container": ["uint8", "bool", "int8", "tuple", "float64", "uint16", "int64"][(rep // 2 + n) % 7], "shape": shape, "timeout": 120})
         # directed: exactly-zero extreme coefficients (raise, or return an element whose identity part is this very F), and tiny
         # extremes with a tight tol (G then has genuinely tiny coefficients)
         for F in ([0.0, 0.3, 0.4], [0.2, 0.1, 0.0], [0.0, 0.5, 0.0], [0.0, 0.0, 0.3, -0.2], [0.1, -0.3, 0.2, 0.0, 0.0], [0.0, 0.25]):
